@@ -133,6 +133,31 @@ pub fn run(ctx: &Ctx) {
         ck!("const.scalar.BASEPOINT_ORDER", U::from_le(kc::BASEPOINT_ORDER.as_bytes()) == l(), "BASEPOINT_ORDER");
         ck!("const.scalar.BASEPOINT_ORDER_PRIVATE", U::from_le(hook::basepoint_order_private().as_bytes()) == l(), "BASEPOINT_ORDER_PRIVATE");
         ck!("const.scalar.ZERO_ONE", U::from_le(Scalar::ZERO.as_bytes()).is_zero() && U::from_le(Scalar::ONE.as_bytes()) == U::ONE, "Scalar::ZERO / ONE");
+        // the scalar-field constants shipped through the ff traits (`group` feature): a textual and five
+        // numeric forms of facts about l, nothing in the crates reads them, so only their definitions decide
+        {
+            use ff::{Field, PrimeField};
+            let lm = l();
+            let s_exp = <Scalar as PrimeField>::S as usize;
+            let zl = |s: &Scalar| Zl(U::from_le(s.as_bytes()));
+            let canon = |s: &Scalar| U::from_le(s.as_bytes()) < lm;
+            let modulus = <Scalar as PrimeField>::MODULUS;
+            ck!("const.scalar.ff.MODULUS", modulus.starts_with("0x") && modulus[2..].trim_start_matches('0').eq_ignore_ascii_case(lm.hex().trim_start_matches('0')), "PrimeField::MODULUS = {} but l = 0x{}", modulus, lm.hex());
+            ck!("const.scalar.ff.NUM_BITS", <Scalar as PrimeField>::NUM_BITS as usize == lm.bits() && <Scalar as PrimeField>::CAPACITY as usize == lm.bits() - 1, "NUM_BITS {} CAPACITY {} but l has {} bits", <Scalar as PrimeField>::NUM_BITS, <Scalar as PrimeField>::CAPACITY, lm.bits());
+            let t = lm.sub(&U::ONE).shr(s_exp);
+            ck!("const.scalar.ff.S", lm.sub(&U::ONE).low_bits(s_exp).is_zero() && t.bit(0), "2^S = 2^{} does not exactly divide l-1", s_exp);
+            let two_inv = <Scalar as PrimeField>::TWO_INV;
+            ck!("const.scalar.ff.TWO_INV", canon(&two_inv) && zl(&two_inv).mul(&Zl::from_u64(2)) == Zl::ONE, "TWO_INV = {}", hex(two_inv.as_bytes()));
+            let g = <Scalar as PrimeField>::MULTIPLICATIVE_GENERATOR;
+            let rou = <Scalar as PrimeField>::ROOT_OF_UNITY;
+            let rou_inv = <Scalar as PrimeField>::ROOT_OF_UNITY_INV;
+            let delta = <Scalar as PrimeField>::DELTA;
+            ck!("const.scalar.ff.MULTIPLICATIVE_GENERATOR", canon(&g) && zl(&g).pow(&lm.sub(&U::ONE).shr(1)) == Zl::ONE.neg(), "MULTIPLICATIVE_GENERATOR = {} is a square", hex(g.as_bytes()));
+            ck!("const.scalar.ff.ROOT_OF_UNITY", canon(&rou) && zl(&rou) == zl(&g).pow(&t), "ROOT_OF_UNITY = {} is not g^((l-1)/2^S)", hex(rou.as_bytes()));
+            ck!("const.scalar.ff.ROOT_OF_UNITY_INV", canon(&rou_inv) && zl(&rou).mul(&zl(&rou_inv)) == Zl::ONE, "ROOT_OF_UNITY_INV = {}", hex(rou_inv.as_bytes()));
+            ck!("const.scalar.ff.DELTA", canon(&delta) && zl(&delta) == zl(&g).pow(&U::pow2(s_exp)), "DELTA = {} is not g^(2^S)", hex(delta.as_bytes()));
+            ck!("const.scalar.ff.ZERO_ONE", U::from_le(<Scalar as Field>::ZERO.as_bytes()).is_zero() && U::from_le(<Scalar as Field>::ONE.as_bytes()) == U::ONE, "Field::ZERO / ONE");
+        }
     }
 
     // ---- public point constants
